@@ -476,12 +476,24 @@ impl Runner {
                 "roundtrip" => {
                     // print the top EXEC item, parse the text in a fresh state, print again
                     let iset = &self.iset;
-                    let top = st.exec_stack.get(0).cloned();
+                    // "deep": n = instead of the top EXEC item, a tree nested n levels (deeper than an event can carry):
+                    // ( n ( n-1 ( ... ( 1 7 ) ... ) ) ); only the texts are recorded
+                    let deep = act.get("deep").and_then(|x| x.as_u64());
+                    let top = match deep {
+                        Some(n) => {
+                            let mut it = pushr::push::item::Item::int(7);
+                            for k in 1..=n {
+                                it = pushr::push::item::Item::list(vec![it, pushr::push::item::Item::int(k as i32)]);
+                            }
+                            Some(it)
+                        }
+                        None => st.exec_stack.get(0).cloned(),
+                    };
                     let r = catch_unwind(AssertUnwindSafe(|| {
                         let p1 = top.as_ref().map(|t| t.to_string()).unwrap_or_default();
                         let mut fresh = PushState::new();
                         PushParser::parse_program(&mut fresh, iset, &p1);
-                        let t2: Vec<Value> = stack2vec(&fresh.exec_stack, item2j);
+                        let t2: Vec<Value> = if deep.is_some() { vec![json!({"k": "int", "v": fresh.exec_stack.size() as i64})] } else { stack2vec(&fresh.exec_stack, item2j) };
                         let p2 = fresh.exec_stack.to_string();
                         let untouched = fresh.code_stack.size() + fresh.int_stack.size() + fresh.name_stack.size()
                             + fresh.float_stack.size() + fresh.bool_stack.size() == 0;
